@@ -202,6 +202,7 @@ def cmd_run(a):
                     break
                 sub = subseed(a.seed, a.prop, w)
                 rng = random.Random(sub)
+                rng.world_index = w
                 case = prop.gen(rng, a.tier)
                 ctx.secondary = secondary
                 tw = time.time()
